@@ -10,6 +10,8 @@ class Crate:
         self.prog = Program(facts_path)
         self.prog.frozen = Frozen(self.prog)
         compute_summaries(self.prog)
+        from .inline import inline_helpers
+        self.inlined = inline_helpers(self.prog.d["fns"], self.prog.summaries)
         self._an = {}
         self._fx = {}
         self.entry_facts_hook = None   # callable(crate, an) -> list of atoms
